@@ -226,7 +226,8 @@ def _coerce(a, b):
 
 
 class Sym(object):
-    __array_priority__ = 1000
+    # NOTE: no __array_priority__: with it numpy declines IN-PLACE operators too (``arr -= sym`` silently became ``arr = arr - sym``),
+    # which hid aliasing of the caller's arrays; object arrays combine element-wise with a Sym through numpy's own loops
     __slots__ = ("t",)
 
     def __init__(self, t):
